@@ -383,6 +383,27 @@ def r2_relations(ctx):
         ctx.check(ok, f, f"{seg} segment smoothed from itself",
                   f"the {seg} segment of a height column is not replaced by "
                   "the monotone smoothing of that same segment")
+    # every present column is smoothed: the only admissible skip is the
+    # absence of the column (strictly monotonic data may be skipped too)
+    for st in walk_no_nested(f, False):
+        if isinstance(st, ast.Assign) and norm(st.targets[0]).startswith(
+                "apret.") and norm(st.targets[0]).endswith("[col]"):
+            for a in conditions_at(st):
+                if a.text.endswith(" in apret"):
+                    continue
+                ops = [type(c.ops[0]) for c in ast.walk(a.node)
+                       if isinstance(c, ast.Compare)]
+                nonstrict = any(o in (ast.GtE, ast.LtE) for o in ops)
+                ctx.check(not nonstrict, st,
+                          f"column skipped only if absent: {a!r}"[:80],
+                          f"smooth_height leaves a present column alone "
+                          f"when `{a!r}`: a non-strict monotonicity test "
+                          f"accepts plateaus (repeated values of a digitised "
+                          f"piezo ramp), the column is then not strictly "
+                          f"monotonic within each segment")
+                if not nonstrict and ops:
+                    raise Undecided(f"smooth_height skips columns under "
+                                    f"{a!r}")
 
 
 def r3_monotone_test(ctx):
